@@ -2116,6 +2116,8 @@ int32_t pstm_exptmod(psPool_t *pool, const pstm_int *G, const pstm_int *X,
         pstmnt_word Temp[512 / sizeof(pstmnt_word) * 7 + 1];
 #endif
         pstmnt_word mp = pstmnt_neg_small_inv(pstmnt_const_ptr(P));
+        pstm_int Xcopy;
+        int16 xcopied = 0, oldused;
 
 
         Memset(Base, 0, sizeof(Base));
@@ -2143,13 +2145,35 @@ int32_t pstm_exptmod(psPool_t *pool, const pstm_int *G, const pstm_int *X,
         }
         Memcpy(Mod, pstmnt_const_ptr(P), pstmnt_size_bytes(P));
 
+        if (Y == X)
+        {
+            /* Y is written before the exponent is read: work from a copy */
+            int32_t err;
+            if ((err = pstm_init_copy(pool, &Xcopy, X, 0)) != PSTM_OKAY)
+            {
+                return err;
+            }
+            X = &Xcopy;
+            xcopied = 1;
+        }
+        oldused = Y->used;
         Y->used = P->used;
         if (Y->used > Y->alloc)
         {
             if (pstm_grow(Y, Y->used) != PSTM_OKAY)
             {
+                if (xcopied)
+                {
+                    pstm_clear(&Xcopy);
+                }
                 return PS_MEM_FAIL;
             }
+        }
+        /* the result is non-negative; clear digits of the old value of Y above it */
+        Y->sign = PSTM_ZPOS;
+        for (x = Y->used; x < oldused; x++)
+        {
+            Y->dp[x] = 0;
         }
 
         /* Use constant time variant. */
@@ -2162,6 +2186,10 @@ int32_t pstm_exptmod(psPool_t *pool, const pstm_int *G, const pstm_int *X,
         pstmnt_montgomery_output(pstmnt_const_ptr(Y), pstmnt_ptr(Y), Mod, Temp,
             pstmnt_size(P), mp);
         pstm_clamp(Y);
+        if (xcopied)
+        {
+            pstm_clear(&Xcopy);
+        }
         memset_s(Base, sizeof(Base), 0, sizeof(Base));
         memset_s(Mod, sizeof(Mod), 0, sizeof(Mod));
         memset_s(Temp, sizeof(Temp), 0, sizeof(Temp));
